@@ -126,9 +126,9 @@ with mk :=
 | MCutK (k : cterm) (e : list (cident * bval))                  (* producer value known; consumer head k *)
 | MCutP (codata : bool) (p : cterm) (e : list (cident * bval))  (* consumer value known; producer head p *)
 with fin :=
-| FCall (f : cident)
-| FXtorP (tag : cident) (m : mk)
-| FXtorK (tag : cident) (m : mk).
+| FinCall (f : cident)
+| FinXtorP (tag : cident) (m : mk)
+| FinXtorK (tag : cident) (m : mk).
 
 Definition cenv := list (cident * bval).
 
@@ -243,7 +243,7 @@ Definition cut_with_k (codata : bool) (p : cterm) (e : cenv) (kv : kval) : sres 
 
 Definition finish_args (p : cprog) (f : fin) (vals : list bval) : sres :=
   match f with
-  | FCall fn =>
+  | FinCall fn =>
       match cfind_def p fn with
       | None => stuck "call-label"
       | Some d =>
@@ -252,8 +252,8 @@ Definition finish_args (p : cprog) (f : fin) (vals : list bval) : sres :=
           | None => stuck "call-arity"
           end
       end
-  | FXtorP tag m => SNext (App m (BP (PCtor tag vals)))
-  | FXtorK tag m => SNext (App m (BK (KDtor tag vals)))
+  | FinXtorP tag m => SNext (App m (BP (PCtor tag vals)))
+  | FinXtorK tag m => SNext (App m (BK (KDtor tag vals)))
   end.
 Definition start_args (p : cprog) (args : list carg) (e : cenv) (f : fin) : sres :=
   match args with
@@ -270,8 +270,8 @@ Definition cstep (p : cprog) (c : config) : sres :=
       match s with
       | CCut pr ty k =>
           match pr, k with
-          | CXtor _ tag args _, _ => start_args p args e (FXtorP tag (MCutK k e))
-          | _, CXtor _ tag args _ => start_args p args e (FXtorK tag (MCutP (is_codata p ty) pr e))
+          | CXtor _ tag args _, _ => start_args p args e (FinXtorP tag (MCutK k e))
+          | _, CXtor _ tag args _ => start_args p args e (FinXtorK tag (MCutP (is_codata p ty) pr e))
           | COp a o b, _ => SNext (Arg (CProducer a) e (MOpL o b e (MCutK k e)))
           | _, _ =>
               match khead k e with
@@ -281,7 +281,7 @@ Definition cstep (p : cprog) (c : config) : sres :=
           end
       | CIfC so a b t el => SNext (Arg (CProducer a) e (MIf1 so b t el e))
       | CPrint nl a next => SNext (Arg (CProducer a) e (MPrint nl next e))
-      | CCall f args _ => start_args p args e (FCall f)
+      | CCall f args _ => start_args p args e (FinCall f)
       | CExit a _ => SNext (Arg (CProducer a) e MExit)
       end
   | Arg (CProducer t) e m =>
@@ -297,7 +297,7 @@ Definition cstep (p : cprog) (c : config) : sres :=
       | CMu _ a s ty =>
           if is_codata p ty then SNext (App m (BP (PThunk a s e)))
           else SNext (Run s ((a, BK (KRet m)) :: e))
-      | CXtor _ tag args _ => start_args p args e (FXtorP tag m)
+      | CXtor _ tag args _ => start_args p args e (FinXtorP tag m)
       | CXCase _ cls _ => SNext (App m (BP (PCocase cls e)))
       end
   | Arg (CConsumer t) e m =>
@@ -311,7 +311,7 @@ Definition cstep (p : cprog) (c : config) : sres :=
       | CMu _ x s ty =>
           if is_codata p ty then SNext (Run s ((x, BP (PDelay m)) :: e))
           else SNext (App m (BK (KMuT x s e)))
-      | CXtor _ tag args _ => start_args p args e (FXtorK tag m)
+      | CXtor _ tag args _ => start_args p args e (FinXtorK tag m)
       | CXCase _ cls _ => SNext (App m (BK (KCase cls e)))
       | _ => stuck "consumer-form"
       end
